@@ -173,6 +173,7 @@ static void c03(const Trace& t, const Analysis& A, Verdict& V) {
 			const uint32_t g0 = w.rounds.front().first, g1 = w.rounds.back().last;
 			for (uint32_t i = g0; i <= g1 && i < w.e; ++i) { const Ev& e = t.ev[i]; if (e.inst == w.inst && e.kind == EV_CB && isLife(e.method)) { V.add(3, i, "enter/exit/reenter ran during guard evaluation"); break; } }
 		}
+		if (w.lostRequest.valid) V.add(3, w.rounds.back().last, F("the guard request %s was neither evaluated by a fresh round of guards nor left outstanding (accepted so far: %s)", trStr(w.lostRequest).c_str(), w.survivor >= 0 ? trStr(w.rounds[w.survivor].pend).c_str() : "-"));
 		// every enter/reenter is justified by the last passing round
 		const LifeSeq ls = lifeSelf(t, w);
 		for (size_t k = 0; k < ls.v.size(); ++k) {
@@ -191,7 +192,6 @@ static void c03(const Trace& t, const Analysis& A, Verdict& V) {
 // C04: termination within the substitution limit
 static void c04(const Trace& t, const Analysis& A, Verdict& V) {
 	const Info& f = t.info;
-	for (uint32_t i = 0; i < t.n; ++i) if (t.ev[i].kind == EV_NOTE && t.ev[i].method == NOTE_BUDGET) V.add(4, i, "API call did not return within the callback budget (64*L+64 callbacks)");
 	if (f.bare) return;
 	for (const Win& w : A.wins) {
 		if (!winUsable(A, w)) continue;
@@ -332,6 +332,10 @@ static void c07(const Trace& t, const Analysis& A, Verdict& V) {
 			if (want.valid && e.cur.valid && !payEq(e.cur, want)) V.add(7, i, F("currentTransition() payload in %s is %s, the applied request carried %s", methName(e.method), trStr(e.cur).c_str(), trStr(want).c_str()));
 		}
 	}
+	if (!f.bare) for (const Win& w : A.wins) {
+		if (!winUsable(A, w) || !(w.processing || w.activation)) continue;
+		if (w.lostRequest.valid && w.lostRequest.hasPay) V.add(7, w.rounds.back().last, F("the payload of request %s was dropped: the request was neither evaluated nor cancelled, and the destination sees %s instead", trStr(w.lostRequest).c_str(), w.survivor >= 0 ? trStr(w.rounds[w.survivor].pend).c_str() : "no transition"));
+	}
 	if (f.hasHistory && !f.bare) for (const Win& w : A.wins) {
 		if (!winUsable(A, w) || !w.processing) continue;
 		const Ev& e = t.ev[w.e - 1];
@@ -457,8 +461,9 @@ void c17(const Trace&, const Analysis&, Verdict&);
 void c18(const Trace&, const Analysis&, Verdict&);
 
 void checkTrace(const Trace& t, const Analysis& A, uint32_t armed, Verdict& out) {
-	if (t.overflow) return;
 	auto on = [&](int k) { return (armed >> k) & 1u; };
+	if (t.budgetAbort && on(4)) out.add(4, t.n ? t.n - 1 : 0, F("an API call ran more than 64*L+64 = %u callbacks without returning (last: s%d.%s): request processing does not terminate within the substitution limit", 64u * t.info.L + 64u, sidOf(t.budgetState), methName(t.budgetMethod)));
+	if (t.overflow) return;
 	if (on(1)) c01(t, A, out);
 	if (on(2)) c02(t, A, out);
 	if (on(3)) c03(t, A, out);
